@@ -255,6 +255,7 @@ type Sched struct {
 	doneHash   uint64 // exited threads' contribution to the state key
 	roleNames  []string
 	roleCounts []int
+	atomics    []atomicCell // per-execution registry of the variables touched by sync/atomic operations
 }
 
 // S is the scheduler of the execution in progress (nil outside Run).
